@@ -894,6 +894,30 @@ pub fn run_case(ctx: &mut Ctx, c: &Case, sb: &Sandbox) {
                                     ctx.landmark("saved_by_command_equal");
                                     nontrivial = true;
                                     outcome.push_str(":saved");
+                                    // the same command onto a target that exists already and is longer than the transfer
+                                    let mut stale = vec![0xEEu8; 37];
+                                    stale.extend_from_slice(&t.content);
+                                    stale.extend_from_slice(&[0xEF; 41]);
+                                    std::fs::write(&save_path, &stale).expect("prefill save target");
+                                    match catch(|| f(&st.internal_data, "save", params.as_object(), Some(cmd_ctx))) {
+                                        Err(p) => ctx.violation("panic", &panic_disc(&p), cj, format!("save command onto an existing file at {}: {}", p.loc, p.msg)),
+                                        Ok(ok3) => {
+                                            let got3 = std::fs::read(&save_path).ok();
+                                            let _ = std::fs::remove_file(&save_path);
+                                            if ok3 && got3.as_deref() == Some(&t.content[..]) {
+                                                ctx.landmark("saved_over_existing_equal");
+                                            } else if !ok3 && got3.as_deref() == Some(&stale[..]) {
+                                                ctx.landmark("save_over_existing_refused");
+                                            } else {
+                                                ctx.violation(
+                                                    "save_over_existing_differs",
+                                                    t.fault.kind(),
+                                                    cj,
+                                                    format!("transfer {ti}: saved onto an existing file of {} bytes: returned {ok3}, the file now holds {} bytes {} != original {} bytes {}", stale.len(), got3.as_ref().map(|g| g.len()).unwrap_or(0), got3.as_deref().map(|g| hex(&g[..g.len().min(48)])).unwrap_or_default(), t.content.len(), hex(&t.content[..t.content.len().min(48)])),
+                                                );
+                                            }
+                                        }
+                                    }
                                 }
                                 // the same transfer through its item in the "Sorted by name" view
                                 for (_, _, _, ctx_by_name) in by_name.iter().filter(|(k, _, comp2, _)| *k == keys[ti] && *comp2) {
